@@ -58,7 +58,7 @@ def run(module, cfg_text, *, workdir, env=None, workers=1, timeout=600, extra=()
     with open(os.path.join(workdir, module + ".cfg"), "w") as fh:
         fh.write(cfg_text)
     meta = os.path.join(workdir, "meta")
-    cmd = ["java", "-XX:+UseParallelGC", "-Xmx6g"]
+    cmd = ["java", "-XX:+UseParallelGC", "-Xmx6g", "-Xss64m"]
     if depth_first:
         cmd.append("-Dtlc2.tool.queue.IStateQueue=StateDeque")
     cmd += ["-cp", JAR, "tlc2.TLC", "-workers", str(workers), "-metadir", meta, "-noGenerateSpecTE", "-config", module + ".cfg"]
